@@ -430,3 +430,75 @@ def _domain_confirmed_incompat(n):
 
 
 DOMAIN[I + 'get_confirmed_incompatibility_edges'] = _domain_confirmed_incompat
+
+
+# in-edges of a node that still derive it, given what has been removed so far (C02, C06: every derivation walk and
+# the upstream search of the incompatibility removal ask this for the SAME node with DIFFERENT removed sets)
+CONTRACTS[F + 'get_deriving_in_edges'] = dict(
+    properties=['C02', 'C06'],
+    types={'graph': 'Ref[NxGraph]', 'node': 'Ref', 'removed_edges': f'Optional[Set[{EDGE}]]', 'removed_nodes': 'Optional[Set[Ref]]',
+           'edge_type': 'Optional[Enum[EdgeType]]', 'cache': 'Ref'},
+    returns=f'Set[{EDGE}]',
+    locals={'in_edges': f'Set[{EDGE}]', 'deriving_edge_types': 'Set[Optional[Enum[EdgeType]]]',
+            'removed_edges': f'Optional[Set[{EDGE}]]', 'removed_nodes': 'Optional[Set[Ref]]'},
+    calls={'iter_in_edges_cached': ITER_IN_C,
+           'get_edge_type': dict(params=['edge', 'default'], types={}, returns='Enum[EdgeType]', modifies=[], pure_expr='edge[3]')},
+    loops={'for edge in iter_in_edges_cached(graph, node, cache=cache)': dict(processed='P', invariant={
+        'kept-so-far': f"forall('e:{EDGE}', (e in in_edges) == (e in P and not (removed_nodes is not None and e[0] in removed_nodes) and "
+                       "not (removed_edges is not None and e in removed_edges) and (e[3] == EdgeType.DERIVES or (edge_type is not None and e[3] == edge_type))))",
+    })},
+    ensures={
+        'exactly-the-in-edges-that-still-derive': ('property',
+            f"forall('e:{EDGE}', (e in result) == (e in graph.edge_set and e[1] == node and not (removed_nodes is not None and e[0] in removed_nodes) and "
+            "not (removed_edges is not None and e in removed_edges) and (e[3] == EdgeType.DERIVES or (edge_type is not None and e[3] == edge_type))))"),
+    },
+    modifies=[],
+)
+
+
+def _domain_deriving_in_edges(n):
+    """Successive calls for the same graph share one `cache` dict (as the derivation walks do), with different removed
+    sets per call."""
+    import random, os
+    import networkx as nx
+    from adsg_core.graph.traversal import get_deriving_in_edges
+    from adsg_core.graph.graph_edges import EdgeType, add_edge, HashableDict, get_edge_type
+    from adsg_core.graph.adsg_nodes import NamedNode
+    rng = random.Random(8400 + int(os.environ.get('VERIF_SEED', '0') or 0))
+    types = [EdgeType.DERIVES, EdgeType.DERIVES, EdgeType.DERIVES, EdgeType.CONNECTS, EdgeType.INCOMPATIBILITY, EdgeType.EXCLUDES]
+    made = 0
+    while made < n:
+        nn = rng.randint(2, 6)
+        nodes = [NamedNode(f'n{i}') for i in range(nn)]
+        g = nx.MultiDiGraph()
+        g.edge_attr_dict_factory = HashableDict
+        g.add_nodes_from(nodes)
+        for _ in range(rng.randint(2, 12)):
+            u, v = rng.sample(nodes, 2)
+            add_edge(g, u, v, key=g.new_edge_key(u, v), edge_type=rng.choice(types))
+        real = list(g.edges(keys=True, data=True))
+        red = {e: (e[0], e[1], e[2], get_edge_type(e)) for e in real}
+        g.edge_set = set(red.values())
+        cache = {}
+        for _ in range(4):
+            node = rng.choice(nodes)
+            rem_e = None if rng.random() < 0.3 else {e for e in real if rng.random() < 0.3}
+            rem_n = None if rng.random() < 0.3 else {x for x in nodes if rng.random() < 0.25}
+            et = rng.choice([None, None, EdgeType.CONNECTS, EdgeType.EXCLUDES])
+            use_cache = cache if rng.random() < 0.8 else None
+            env = {'graph': g, 'node': node, 'removed_edges': None if rem_e is None else {red[e] for e in rem_e},
+                   'removed_nodes': None if rem_n is None else set(rem_n), 'edge_type': et, 'cache': use_cache, 'EdgeType': EdgeType}
+
+            def call(g=g, node=node, rem_e=rem_e, rem_n=rem_n, et=et, use_cache=use_cache):
+                r = get_deriving_in_edges(g, node, removed_edges=None if rem_e is None else set(rem_e),
+                                          removed_nodes=None if rem_n is None else set(rem_n), edge_type=et, cache=use_cache)
+                return {(e[0], e[1], e[2], get_edge_type(e)) for e in r}
+            made += 1
+            yield (env, call, {'Ref': nodes, EDGE: list(g.edge_set)},
+                   f'get_deriving_in_edges(edges={[(str(a), str(b), k, t.name) for a, b, k, t in g.edge_set]}, node={node}, '
+                   f'removed_edges={None if rem_e is None else [(str(e[0]), str(e[1]), e[2]) for e in rem_e]}, '
+                   f'removed_nodes={None if rem_n is None else [str(x) for x in rem_n]}, edge_type={et}, '
+                   f'cache={"shared with the earlier calls on this graph" if use_cache is not None else None})')
+
+
+DOMAIN[F + 'get_deriving_in_edges'] = _domain_deriving_in_edges
